@@ -13,7 +13,9 @@
   * `C08_full`                      accepted ⇔ `Rules s` — both directions, every rule family: offsets,
                                     blockLength, literals, choice indices, unknown / wrong-kind / cyclic
                                     references, arrays, level headers incl. the `<data>` header layout,
-                                    names, keywords, duplicates, numeric attributes;
+                                    integer header members, the values written into header members
+                                    (schema id/version, message ids, block lengths, member counts),
+                                    distinct enum values, names, keywords, duplicates, numeric attributes;
     `rejects_every_broken_schema`, `accepts_every_rule_abiding_schema`   its two halves;
   * `check_error_sound`             the class and the entity of the reported diagnostic are a rule of the
                                     specification broken at that entity (all classes, all phases);
@@ -30,7 +32,9 @@
 
   History: until /repo commits d749b7f, 57db3e7, 5d34b3a the full statement was false (kept then as
   `C08_full_false` with two kernel-checked witnesses); the witnesses are kept below as regression
-  examples of the fixed behaviour.
+  examples of the fixed behaviour.  The three families "header member must be an integer",
+  "value written into a header member must fit it" and "enum values are pairwise distinct" follow
+  /verif/fixes/c08-float-header-member.patch, c08-header-value-range.patch, c08-duplicate-enum-value.patch.
 -/
 import Sbepp.Lemmas.Rules
 import Sbepp.Lemmas.RulesAccept
@@ -109,6 +113,42 @@ set_option maxRecDepth 100000 in
 example : violations witnessDataHeader = [(.dataHeaderLayout, ["types", "Var", "length"])] := by decide +kernel
 set_option maxRecDepth 100000 in
 example : accepts witnessCharEnum = true ∧ violations witnessCharEnum = [] := by decide +kernel
+
+/-- a header member used as an integer must have an integer type (c08-float-header-member) -/
+def witnessFloatHeader : SchemaDef :=
+  { package := "w", id := 1, version := 0, byteOrder := .little, headerType := "messageHeader",
+    types := [.composite "messageHeader" none
+      [ty "blockLength" "uint16", ty "templateId" "float", ty "schemaId" "uint16", ty "version" "uint16"]],
+    messages := [] }
+
+/-- message id 70000 does not fit a `uint16` templateId (c08-header-value-range) -/
+def witnessWideId : SchemaDef :=
+  { package := "w", id := 1, version := 0, byteOrder := .little, headerType := "messageHeader",
+    types := [msgHeader],
+    messages := [{ name := "M", id := 70000, blockLength := none, fields := [], groups := [], datas := [] }] }
+
+/-- `1` and `01` are the same enum value (c08-duplicate-enum-value) -/
+def witnessDupValue : SchemaDef :=
+  { package := "w", id := 1, version := 0, byteOrder := .little, headerType := "messageHeader",
+    types := [msgHeader, .enum "E" "uint8" none [{ name := "A", value := "1" }, { name := "B", value := "01" }]],
+    messages := [] }
+
+set_option maxRecDepth 100000 in
+example : (match check witnessFloatHeader with
+           | .error d => d.cls == .headerElementNotInteger && d.loc == ["types", "messageHeader", "templateId"]
+           | .ok _ => false) = true ∧
+    violations witnessFloatHeader = [(.headerElementNotInteger, ["types", "messageHeader", "templateId"])] := by
+  decide +kernel
+set_option maxRecDepth 100000 in
+example : (match check witnessWideId with
+           | .error d => d.cls == .headerValueOutOfRange && d.loc == ["messages", "M"]
+           | .ok _ => false) = true ∧
+    violations witnessWideId = [(.headerValueOutOfRange, ["messages", "M"])] := by decide +kernel
+set_option maxRecDepth 100000 in
+example : (match check witnessDupValue with
+           | .error d => d.cls == .duplicateEnumValue && d.loc == ["types", "E", "B"]
+           | .ok _ => false) = true ∧
+    violations witnessDupValue = [(.duplicateEnumValue, ["types", "E", "B"])] := by decide +kernel
 
 /-- the hypotheses of the partial theorems are satisfiable and non-trivial: a schema with a
     group, data, an enum, a set, a composite with a custom offset, a message with a custom
